@@ -242,7 +242,7 @@ func c18Quote(keys []string) string {
 // TestVerifC18Mem explores the two in-memory implementations.
 func TestVerifC18Mem(t *testing.T) {
 	c18Run(t, "C18-statestore-mem-mock", []int{c18ImplLdbMem, c18ImplMock},
-		mc.EnvInt("VERIF_C18_SIZE", mc.Pick(1, 0)), mc.EnvInt("VERIF_C18_DEPTH", mc.Pick(4, 6)))
+		mc.EnvInt("VERIF_C18_SIZE", mc.Pick(1, 0)), mc.EnvInt("VERIF_C18_DEPTH", mc.Pick(4, 5)))
 }
 
 // TestVerifC18Disk explores the file-backed store including close + reopen.
